@@ -634,7 +634,15 @@ def header_imports():
             imps = wasm_imports(f.read())
     m = re.search(r'#define\s+SHOPIFY_FUNCTION_IMPORT_MODULE\s+"([^"]+)"', hdr)
     defines = dict((k, int(v)) for k, v in re.findall(r"#define\s+(WRITE_RESULT_\w+)\s+(\d+)", hdr))
+    # functions whose prototype takes a pointer (into guest memory): the ones the trampoline has to wrap
+    global HEADER_POINTER_FNS
+    HEADER_POINTER_FNS = sorted(n for n, params in re.findall(r'import_name\("([^"]+)"\)\)\)?\s*extern\s+[^;(]*\(([^)]*)\)\s*;', hdr) if "*" in params)
+    if not HEADER_POINTER_FNS:
+        raise ExtractError("no prototype with a pointer parameter found in the C header")
     return [i for i in imps if i[1] in names], (m.group(1) if m else ""), defines
+
+
+HEADER_POINTER_FNS = []
 
 
 def sexprs(text):
@@ -887,6 +895,8 @@ def gen_abi():
     codes("readmeErrorCodes", errs)
     codes("readmeWriteStatus", stats)
     codes("headerDefines", sorted(hdr_defs.items()))
+    lines.append("/-- functions whose C prototype takes a pointer into guest memory -/")
+    lines.append("def abiPointerFns : List (List Nat) := [\n  %s\n]" % ",\n  ".join(name_lit(n) for n in HEADER_POINTER_FNS))
     lines.append("end SfVerif.Gen")
     return "\n".join(lines) + "\n", {
         "wat": sorted((n, p, r) for _, n, p, r in wat), "header": sorted((n, p, r) for _, n, p, r in hdr),
